@@ -24,7 +24,14 @@ LEAN_MODULES = ['Proofs.C08']
 REQUIRED = ['C08.pool_map_schedule_indep', 'C08.ensemble_mean', 'C08.flip_member_mean',
             'C08.ensemble_zero_noise_eq_sift', 'C08.ensemble_member_noise', 'C08.ensemble_noise_distinct',
             'C08.ensemble_schedule_indep', 'C08.forkdraw_member_noise', 'C08.ensemble_noise_shared_forkdraw_witness',
-            'C08.ceemd_noise_by_column', 'C08.ceemd_stage_mean',
+            'C08.ceemd_noise_by_column', 'C08.ceemd_noise_distinct', 'C08.ceemd_stage_mean',
+            # clause 4 closed over all stages: distinctness of the noise matrix at every fan-out from stage-0 distinctness
+            # + the stated hypothesis on the noise-only sift; its necessity; what the members actually sift
+            'C08.ceemd_noise_step_distinct_iff', 'C08.ceemd_noise_distinct_all_stages',
+            'C08.ceemd_noise_distinct_all_stages_of_injective', 'C08.ceemd_noise_distinct_all_stages_iff',
+            'C08.ceemd_cols_are_fanout_means', 'C08.ceemd_noise_distinct_every_fanout',
+            'C08.ceemd_live_noise_distinct_all_stages', 'C08.ceemd_noise_distinctness_lost_witness',
+            'C08.ceemd_first_stage_double_scaled', 'C08.ensemble_members_distinct_inputs',
             # cross-model consistency with the Sift model (C01/C03/C04)
             'C08.ensemble_mean_agrees_with_sift_model', 'C08.ensembleSift_agrees_with_sift_model',
             'C08.ensemble_cols_le_cap_classic_sift', 'C08.ensemble_zero_noise_eq_classic_sift',
@@ -45,6 +52,16 @@ TRUSTED = [
     'complete_ensemble_sift: pure-noise sifts are told from member sifts by content (an all-zero input, or an input P whose '
     'P - firstIMF(P) is itself sifted later or is a column of the returned noise); member sifts are grouped into stages by time '
     '(stage k+1 inputs depend on the results of all stage k sifts, so the order of stages is causal)',
+    'MODELLED AS IT IS, not demanded or excluded by C08 (two questionable behaviours of complete_ensemble_sift, both verified on the code '
+    'by tracing the noise; stated about the model by C08.ceemd_first_stage_double_scaled and compared on every run by the CEEMD op): '
+    '(1) the noise matrix is drawn with np.random.random_sample((n, nensembles)) - uniform on [0, 1), mean 1/2, variance 1/12 - whereas '
+    'ensemble_sift draws np.random.randn (zero-mean, unit variance): the model takes the matrix M as an arbitrary input and the harness '
+    'feeds it the traced one, so no theorem depends on the distribution, but in single mode every member noise of a stage has a positive '
+    'offset that the mean over the members does not remove (flip mode cancels it); '
+    '(2) the first fan-out hands _sift_with_noise the ALREADY scaled matrix noise = U * noise_scaling TOGETHER WITH noise_scaling, which '
+    'multiplies once more: stage-0 members sift X +/- noise_scaling^2 * U_i, while the noise-only sifts and every later stage use '
+    'noise_scaling * U_i and its first-IMF residuals, added unscaled (noise_scaling=None). With noise_scaling = X.std() * ensemble_noise '
+    'the first-stage noise amplitude is therefore not proportional to ensemble_noise * X.std() but to its square',
 ]
 ASSUMPTIONS = [
     'PARTIAL: the real OS scheduling of pool workers is sampled (nprocesses 1..8, randomised worker delays), not enumerated; '
@@ -56,6 +73,18 @@ ASSUMPTIONS = [
     'member (behaviour of the DESIGN 9-D3 repair owned by C03); on a tree without that repair such cases raise IndexError and are counted '
     'under the tag d3-ragged-pinned, not compared',
     'complete_ensemble_sift stop logic (number of stages) is taken from the output; C03 owns it',
+    'complete_ensemble_sift, independence of the member noise at the LATER fan-outs rests on a hypothesis on the noise-only sift (an oracle): '
+    'nu -> nu - firstIMF(nu) separates the columns present in the noise matrix at every stage (hFn of C08.ceemd_noise_distinct_all_stages / '
+    'ceemd_noise_distinct_every_fanout; by C08.ceemd_noise_distinct_all_stages_iff exactly equivalent, given a non-zero scale and distinct '
+    'drawn columns, to every stage matrix having pairwise distinct columns). It does not hold for an arbitrary sift '
+    '(C08.ceemd_noise_distinctness_lost_witness: a column without extrema is its own first IMF, its residual is the zero column; replayed '
+    'on the real code with two distinct monotone columns injected as the drawn matrix - both residuals all-zero, the stage-1 members sift '
+    'the same signal). VALIDATED PER RUN: on every traced complete_ensemble_sift run with non-zero noise the matrix of every stage (columns '
+    'handed to the noise-only sifts of stage 0..K-1 = the matrices of the fan-outs, and the returned matrix) is checked for pairwise distinct '
+    'columns: two equal columns with a non-zero sample are the failure ceemd:stage-noise-duplicate; two or more exhausted (exactly zero) '
+    'columns at a fan-out are what the algorithm does once a noise column runs out of extrema - the strict hypothesis is then broken for '
+    'that run (tag HYPOTHESIS-BROKEN:several-exhausted-noise-columns-coincide-at-a-fan-out) and only '
+    'C08.ceemd_live_noise_distinct_all_stages applies (the columns that are still live are pairwise distinct), which is what the check demands',
     'skip-and-count (never a violation): the public sift is not called at all (tag untraceable); the member noise cannot be attributed to a '
     'traced numpy.random draw; the stage structure of a complete_ensemble_sift run is not recognised; its member noise is not among the '
     'noise columns that are sifted themselves',
@@ -65,7 +94,9 @@ RULE = ('grid: nensembles 1..8 x nprocesses 1..8 x noise_mode {single, flip} x e
         'walk families, n in 48..128; numpy seed per case; random worker delays in 60% of the cases. Non-trivial: nensembles >= 2, '
         'nprocesses >= 2 and non-zero noise. Instance check on the multiset of sifted signals S_j (d_j = S_j - X): single mode = exactly '
         'nensembles signals with pairwise distinct d_j; flip mode = 2*nensembles signals that pair up as (nu, -nu) with pairwise distinct nu; '
-        'result = zero-padded per-IMF mean of the public sift of those signals; zero noise = classic sift with the same cap.')
+        'result = zero-padded per-IMF mean of the public sift of those signals; zero noise = classic sift with the same cap. '
+        'complete_ensemble_sift additionally: per stage the members (residual +/- noise column) have pairwise distinct non-zero noise, and '
+        'the noise matrix of every stage (fan-outs 0..K-1 and the returned matrix) has pairwise distinct non-zero columns.')
 
 MODEL_DRAW = 'parent'        # where the modelled code draws the member noise ('fork' = pinned code, inside the worker)
 LEVELS = [0.0, 0.05, 2.0]
@@ -233,6 +264,52 @@ def _same_noise_classes(nus, tol, up_to_sign, ignore=None):
                     break
         cls.append(c if c is not None else (max(cls) + 1 if cls else 0))
     return cls
+
+
+def _multiset_match(A, B, tol):
+    """A and B hold the same arrays (within tol) with the same multiplicities"""
+    if len(A) != len(B):
+        return False
+    free = list(range(len(B)))
+    for a in A:
+        hit = next((j for j in free if float(np.max(np.abs(a - B[j]))) <= tol), None) if len(a) else (free[0] if free else None)
+        if hit is None:
+            return False
+        free.remove(hit)
+    return True
+
+
+def _stage_noise_matrices(S, pure, nxt, ret_noise, K, N, tol):
+    """The parent's noise matrix at every stage, as observed from outside: the pure-noise sifts in time order are the
+    columns handed to the noise-only starmap of stage 0, 1, ..., K-1 (N per stage; stage k's matrix is also the one the
+    members of fan-out k were given), followed by the returned matrix (stage K). Stages are separated by time (the
+    noise sifts of stage k run after all member sifts of stage k and before those of stage k+1). Also reported: whether
+    the chain closes, i.e. the matrix of stage k+1 is, as a multiset, {P - firstIMF(P) : P column of stage k} with the
+    first IMF by the public sift (an open chain is a tag; the model comparison is what flags it).
+    Returns (list of K+1 lists of N columns | None, note)."""
+    pidx = [i for i in range(len(S)) if pure[i]]
+    if len(pidx) != K * N:
+        return None, 'noise-sift-count-%s' % ('low' if len(pidx) < K * N else 'high')
+    if len(ret_noise) != N:
+        return None, 'returned-noise-width'
+    mats = [[S[i] for i in pidx[k * N:(k + 1) * N]] for k in range(K)] + [ret_noise]
+    for k in range(K):
+        if not _multiset_match([nxt[i] for i in pidx[k * N:(k + 1) * N]], mats[k + 1], tol):
+            return mats, 'noise-chain-open-after-stage-%d' % k
+    return mats, ''
+
+
+def _column_duplicates(cols):
+    """(pairs of equal columns with a non-zero sample, number of all-zero columns). Equal = bit-identical or within
+    1e-13 of the larger magnitude (columns are copies of one another when a matrix repeats a column)."""
+    live = [i for i, c in enumerate(cols) if _msk.max_abs(c) > 0]
+    dup = []
+    for a in range(len(live)):
+        for b in range(a + 1, len(live)):
+            u, v = cols[live[a]], cols[live[b]]
+            if float(np.max(np.abs(u - v))) <= 1e-13 * max(_msk.max_abs(u), _msk.max_abs(v)):
+                dup.append((live[a], live[b]))
+    return dup, len(cols) - len(live)
 
 
 class _Base(Stream):
@@ -705,6 +782,7 @@ class Complete(_Base):
                     st['classes'] = _same_noise_classes([e[r] for r in reps], tol, flip, ignore=[st['negligible'][r] for r in reps])
                 stages.append(st)
             an['stages'] = stages
+            an['stage_noise'], an['stage_noise_why'] = _stage_noise_matrices(S, pure, nxt, ret_noise, K, N, tol)
             # stage-0 noise columns as the model sees them: member noise = +/- scale * (a noise column P that is sifted itself)
             st0 = stages[0]
             if st0['reps'] is not None:
@@ -823,6 +901,18 @@ class Complete(_Base):
                     fs.append(Failure('members-share-noise', 'stage %d: %d distinct noise arrays for %d members with non-zero noise'
                                       % (k, len(set(cl)), len(cl))))
                     break
+        # hypothesis of C08.ceemd_noise_distinct_all_stages / ceemd_noise_distinct_every_fanout, as observed: the noise
+        # matrix of EVERY stage (fan-outs 0..K-1 and the returned one) has pairwise distinct columns. Columns that are
+        # exactly zero are exhausted (own first IMF removed): they coincide by the algorithm, are reported as a tag and
+        # fall under C08.ceemd_live_noise_distinct_all_stages (distinctness of the columns that are still live).
+        if case['level'] > 0 and an.get('stage_noise') is not None:
+            for k, mat in enumerate(an['stage_noise']):
+                dup, _ = _column_duplicates(mat)
+                if dup:
+                    where = 'returned noise matrix' if k == len(an['stages']) else 'noise matrix of fan-out %d' % k
+                    fs.append(Failure('ceemd:stage-noise-duplicate', '%s: columns %s coincide (%d columns, non-zero)'
+                                      % (where, dup[:3], len(mat))))
+                    break
         for k, st in enumerate(an['stages']):
             want = np.mean([an['first'][i] for i in st['idx']], axis=0)
             dev = float(np.max(np.abs(st['col'] - want)))
@@ -849,6 +939,22 @@ class Complete(_Base):
                     t.append('noise-attributed-to-rng-draws' if an['noise_attributed'] else 'noise-not-attributed-to-rng-draws')
                 if any(any(st['negligible']) for st in an['stages']) and case['level'] > 0:
                     t.append('exhausted-noise-column')
+                if case['level'] > 0:
+                    if an.get('stage_noise') is None:
+                        t.append('stage-noise-matrices-not-recognised:' + an.get('stage_noise_why', '?'))
+                    else:
+                        if an.get('stage_noise_why'):
+                            t.append('stage-noise-chain-open')
+                        K = len(an['stages'])
+                        zeros = [_column_duplicates(m)[1] for m in an['stage_noise']]
+                        if any(_column_duplicates(m)[0] for m in an['stage_noise']):
+                            t.append('stage-noise-duplicate')
+                        elif any(z >= 2 for z in zeros[:K]):
+                            t.append('HYPOTHESIS-BROKEN:several-exhausted-noise-columns-coincide-at-a-fan-out(live-columns-distinct)')
+                        elif zeros[K] >= 2:
+                            t.append('stage-noise-nodup-at-every-fan-out(returned-matrix-has-several-exhausted-columns)')
+                        else:
+                            t.append('stage-noise-nodup-at-every-stage')
         return t
 
 
